@@ -1,10 +1,11 @@
 //@ assume: Segment::root (abstract: returns sp_root; ASSUMED: it returns Ok(None) only for a prunable MMR, i.e. when a bitmap was passed -- proved as a postcondition of the real function in C16/segment_root, a separate unit with its own abstract types, so it enters here as an assumed contract), Segment::get_hash (abstract: sp_hash_at(pos)), segment_pos_range (contract proved in C16/segment_ident; here only `last < mmr_size` is used), croaring Bitmap::range_cardinality (abstract: card(lo, hi) = number of set bits in [lo, hi))
-//@ assume: pmmr::n_leaves / bintree_leftmost / bintree_rightmost / family_branch are abstract here with uninterpreted results; their exact contracts are proved in C07/pmmr_arith; used here: leftmost(p) <= p, rightmost(p) <= p, 1 <= n_leaves(x) <= x for x >= 1, every family_branch position is < mmr_size
-//@ assume: T5: `Vec<(u64,u64)>::into_iter()` / `.next()` => abstract FbVec / FbIter (yields the elements in order). T6: `self.get_hash(pos0).map(|h| (h, 1 + pos0))` => the equivalent `match` (Result::map with an un-annotated closure is outside the verifier)
-//@ assume: assumed precondition: 1 <= mmr_size < 2^63
+//@ assume: pmmr::n_leaves / bintree_leftmost / bintree_rightmost / family_branch are the REAL functions with their contracts from C07/pmmr_arith (included and re-verified here; re-exported under a `pmmr` module), so the leaf range handed to the bitmap is stated over the explicit tree: [lb(leftmost(p)+1)-1, min(lb(rightmost(p)+1), lb(mmr_size)))
+//@ assume: T5: `Vec<(u64,u64)>::into_iter()` / `.next()` => FbIter, a VERIFIED cursor over the real vector (yields the elements in order). T6: `self.get_hash(pos0).map(|h| (h, 1 + pos0))` => the equivalent `match` (Result::map with an un-annotated closure is outside the verifier)
+//@ assume: assumed precondition: 1 <= mmr_size < 2^62 (the range C07 proves family_branch for)
 //@ assume: decided here (C16, segment validation on a pruned source): Segment::first_unpruned_parent returns either (segment root, last+1) when the segment has a root; or, climbing from the segment's last position along its family branch, the FIRST position whose hash the segment carries -- and it climbs from a position to its parent ONLY IF the bitmap has no set bit in EXACTLY the parent's leaf-index range [n_leaves(1+leftmost(parent))-1, min(n_leaves(1+rightmost(parent)), n_leaves(mmr_size))), i.e. the parent's whole subtree is pruned. A narrower or shifted range (which would let validation accept a segment that omits an unspent leaf) fails the postcondition. No overflow, no out-of-range access; the loop terminates.
-//@ assumed_items: 9
+//@ assumed_items: 5
 //@ fns: Segment::first_unpruned_parent
+//@ include: ../C07/pmmr_arith.verus.rs
 /// std::cmp::min at u64
 fn min(a: u64, b: u64) -> (r: u64) ensures r == (if a <= b { a } else { b }) { if a <= b { a } else { b } }
 #[derive(Clone, Copy, PartialEq, Eq)]
@@ -18,15 +19,16 @@ impl Bitmap {
     #[verifier::external_body]
     pub fn range_cardinality(&self, range: std::ops::Range<u32>) -> (r: u64) ensures r == self.card(range.start, range.end) { unimplemented!() }
 }
-pub uninterp spec fn sp_n_leaves(size: u64) -> u64;
-pub uninterp spec fn sp_leftmost(p: u64) -> u64;
-pub uninterp spec fn sp_rightmost(p: u64) -> u64;
-pub uninterp spec fn sp_branch(pos0: u64, size: u64) -> Seq<(u64, u64)>;
-pub struct FbVec { pub v: Vec<(u64, u64)> }
-pub struct FbIter { pub v: Vec<(u64, u64)>, pub i: usize }
-impl FbVec {
-    pub fn into_iter(self) -> (r: FbIter) ensures r.v@ == self.v@, r.i == 0 { FbIter { v: self.v, i: 0 } }
+pub open spec fn sp_n_leaves(size: u64) -> u64 { lb(size as nat, 64) as u64 }
+pub open spec fn sp_leftmost(p: u64) -> u64 { (p as nat + 2 - pow2(ht(p as nat, 64) + 1)) as u64 }
+pub open spec fn sp_rightmost(p: u64) -> u64 { (p as nat - ht(p as nat, 64)) as u64 }
+/// the family branch as the explicit-tree ancestors (C07 contract of pmmr::family_branch)
+pub open spec fn is_branch(b: Seq<(u64, u64)>, pos0: u64, size: u64) -> bool {
+    forall|i: int| 0 <= i < b.len() ==> (#[trigger] b[i]).0 as nat == anc(pos0 as nat, (i + 1) as nat) && b[i].0 < size
 }
+pub mod pmmr { pub use super::{n_leaves, bintree_leftmost, bintree_rightmost, family_branch}; }
+pub struct FbIter { pub v: Vec<(u64, u64)>, pub i: usize }
+fn fb_iter(v: Vec<(u64, u64)>) -> (r: FbIter) ensures r.v@ == v@, r.i == 0 { FbIter { v, i: 0 } }
 impl FbIter {
     pub fn next(&mut self) -> (r: Option<(u64, u64)>)
         requires old(self).i <= old(self).v@.len()
@@ -35,20 +37,24 @@ impl FbIter {
             old(self).i >= old(self).v@.len() ==> r.is_none() && final(self).i == old(self).i,
     { if self.i < self.v.len() { let x = self.v[self.i]; self.i = self.i + 1; Some(x) } else { None } }
 }
-pub mod pmmr { use super::*;
-    #[verifier::external_body]
-    pub fn n_leaves(size: u64) -> (r: u64) ensures r == sp_n_leaves(size), r <= size, size >= 1 ==> r >= 1 { unimplemented!() }
-    #[verifier::external_body]
-    pub fn bintree_leftmost(p: u64) -> (r: u64) ensures r == sp_leftmost(p), r <= p { unimplemented!() }
-    #[verifier::external_body]
-    pub fn bintree_rightmost(p: u64) -> (r: u64) ensures r == sp_rightmost(p), r <= p { unimplemented!() }
-    #[verifier::external_body]
-    pub fn family_branch(pos0: u64, size: u64) -> (r: FbVec)
-        ensures r.v@ == sp_branch(pos0, size), forall|i: int| 0 <= i < r.v@.len() ==> (#[trigger] r.v@[i]).0 < size { unimplemented!() }
+proof fn lemma_lb_pos(pos: nat, h: nat)
+    requires 1 <= pos < tsize(h)
+    ensures lb(pos, h) >= 1
+    decreases h
+{
+    lemma2_to64(); lemma_psize(h);
+    if h > 0 {
+        lemma_pow2_unfold(h); lemma_psize((h - 1) as nat); lemma_pow2_pos((h - 1) as nat); lemma_pow2_pos(h);
+        if pos == tsize(h) - 1 {
+        } else if pos < tsize((h - 1) as nat) {
+            lemma_lb_pos(pos, (h - 1) as nat);
+        } else {
+        }
+    }
 }
 pub struct Segment { pub id: u64 }
 /// the i-th position on the way up: path(0) = last, path(i) = family_branch[i-1].0
-pub open spec fn path(last: u64, mmr_size: u64, i: int) -> u64 { if i <= 0 { last } else { sp_branch(last, mmr_size)[i - 1].0 } }
+pub open spec fn path(last: u64, mmr_size: u64, i: int) -> u64 { if i <= 0 { last } else { anc(last as nat, i as nat) as u64 } }
 /// the leaf-index range of the subtree below p, clamped to the MMR -- what the bitmap must be asked about
 pub open spec fn lo(p: u64) -> u32 { (sp_n_leaves((1 + sp_leftmost(p)) as u64) - 1) as u32 }
 pub open spec fn hi(p: u64, mmr_size: u64) -> u32 {
@@ -69,32 +75,39 @@ impl Segment {
     fn get_hash(&self, pos0: u64) -> (r: Result<Hash, SegmentError>) ensures r == self.sp_hash_at(pos0) { unimplemented!() }
 //@ extract core/src/core/pmmr/segment.rs :: impl Segment::first_unpruned_parent
 //@   rewrite `hash = self.get_hash(pos0).map(|h| (h, 1 + pos0));` => `hash = match self.get_hash(pos0) { Ok(h) => Ok((h, 1 + pos0)), Err(e) => Err(e) };`
+//@   rewrite `pmmr::family_branch(last, mmr_size).into_iter()` => `fb_iter(pmmr::family_branch(last, mmr_size))`
 //@   rewrite `let mut cardinality = 0;` => `let mut cardinality: u64 = 0;`
 //@   rewrite `let mut hash = Err(SegmentError::MissingHash(last));` => `let mut hash: Result<(Hash, u64), SegmentError> = Err(SegmentError::MissingHash(last));`
 //@   requires:
-//@+    1 <= mmr_size < 0x8000_0000_0000_0000u64,
+//@+    1 <= mmr_size < 0x4000_0000_0000_0000u64,
 //@   ensures:
 //@+    self.sp_root(mmr_size, bitmap).is_err() ==> r.is_err(),
 //@+    self.sp_root(mmr_size, bitmap) matches Ok(Some(rt)) ==> r == Ok::<(Hash, u64), SegmentError>((rt, (1 + self.sp_last(mmr_size)) as u64)),
-//@+    (self.sp_root(mmr_size, bitmap) matches Ok(None)) && r.is_ok() ==> bitmap.is_some() && exists|k: int| 0 <= k <= sp_branch(self.sp_last(mmr_size), mmr_size).len()
+//@+    (self.sp_root(mmr_size, bitmap) matches Ok(None)) && r.is_ok() ==> bitmap.is_some() && exists|k: int| 0 <= k && inside(self.sp_last(mmr_size), mmr_size, k)
 //@+        && #[trigger] climbed(*self, *bitmap.unwrap(), mmr_size, k) && r.unwrap().1 == 1 + path(self.sp_last(mmr_size), mmr_size, k)
 //@+        && self.sp_hash_at(path(self.sp_last(mmr_size), mmr_size, k)) == Ok::<Hash, SegmentError>(r.unwrap().0),
+//@   before `let range = (pmmr::n_leaves(`:
+//@+    proof { lemma2_to64(); lemma_psize(64); lemma_pow2_unfold(64); lemma_pow2_unfold(63); lemma_ht_small(p0 as nat); lemma_subtree_fits(p0 as nat, 64);
+//@+        lemma_pow2_pos(ht(p0 as nat, 64) + 1); lemma_pow2_unfold(ht(p0 as nat, 64) + 1); lemma_pow2_pos(ht(p0 as nat, 64));
+//@+        lemma_lb_pos((p0 as nat + 3 - pow2(ht(p0 as nat, 64) + 1)) as nat, 64); lemma_lb_le((p0 as nat + 3 - pow2(ht(p0 as nat, 64) + 1)) as nat, 64); }
 //@   attr: #[verifier::loop_isolation(false)]
 //@   at_start:
 //@+    let ghost bm0 = bitmap;
 //@   loop 1:
 //@+    invariant
 //@+        self.sp_root(mmr_size, bm0) == Ok::<Option<Hash>, SegmentError>(None), bm0 == Some(bitmap),
-//@+        1 <= mmr_size < 0x8000_0000_0000_0000u64, last == self.sp_last(mmr_size), last < mmr_size,
-//@+        family_branch.v@ == sp_branch(last, mmr_size), family_branch.i <= family_branch.v@.len(),
-//@+        forall|i: int| 0 <= i < family_branch.v@.len() ==> (#[trigger] family_branch.v@[i]).0 < mmr_size,
+//@+        1 <= mmr_size < 0x4000_0000_0000_0000u64, last == self.sp_last(mmr_size), last < mmr_size,
+//@+        is_branch(family_branch.v@, last, mmr_size), family_branch.i <= family_branch.v@.len(),
+//@+        inside(last, mmr_size, family_branch.i as int),
 //@+        pos0 == path(last, mmr_size, family_branch.i as int), pos0 < mmr_size,
-//@+        n_leaves == sp_n_leaves(mmr_size),
+//@+        n_leaves as nat == lb(mmr_size as nat, 64),
 //@+        hash.is_err(),
 //@+        cardinality == 0 ==> climbed(*self, *bitmap, mmr_size, family_branch.i as int),
 //@+    decreases family_branch.v@.len() - family_branch.i, (if cardinality == 0 { 1int } else { 0int }),
 //@ end
 }
+/// the first k ancestors of `last` are positions of the MMR
+pub open spec fn inside(last: u64, mmr_size: u64, k: int) -> bool { forall|j: nat| 1 <= j <= k ==> #[trigger] anc(last as nat, j) < mmr_size }
 /// every position below path(k) on the way up had no hash in the segment, and every step up was licensed by an
 /// all-pruned parent subtree
 pub open spec fn climbed(s: Segment, b: Bitmap, mmr_size: u64, k: int) -> bool {
